@@ -14,7 +14,16 @@ META = {
                   "model is tied to util/glob.go by comparing, for every single pattern of length <= 3 (quick) / <= 4 "
                   "(thorough) over {a / * ? \\ . [}, every pair of patterns of length <= 2 and sampled longer lists: the "
                   "pattern string byte for byte, the shape of regexp/syntax.Parse's tree, and MatchString on all 781 "
-                  "paths of length <= 4 over {a / . \\n [}.",
+                  "paths of length <= 4 over {a / . \\n [}. The walks that apply the sets are modelled too (Glob/Walk.v: the "
+                  "recursion of Project.loadPackage with its ignore test, the WalkDir callbacks of glob() and os.glob()) with "
+                  "theorems for every tree: a package is loaded iff no directory on the way to it, the root (empty path) and "
+                  "itself included, matches a pattern; glob() returns exactly the files at any depth (outside .dawn/build) that "
+                  "match some include and no exclude. They are tied to project.go / project_builtins.go / lib/os/glob.go by "
+                  "sweeps on fixed trees: a project with packages at depth 0-3 loaded under every single ignore pattern of "
+                  "length <= 3/4 over {a b / * ?}, all pairs of length <= 1, the generalisations (?, *, ** at every position) "
+                  "of every directory path, an escape class and sampled lists; glob()/os.glob() from two modules with every "
+                  "single pattern of length <= 3/4 over {a x / * ?}, the generalisations of every file path as include and as "
+                  "exclude, and sampled include/exclude lists -- each compared with the model and with the recursive matcher.",
     "level_note": "Trusted: Coq kernel; Go's regexp engine is modelled (semantics of the emitted fragment) and validated "
                   "by the correspondence sweep only. Bytes stand for characters: theorems are stated for ASCII patterns "
                   "and paths; non-ASCII behaviour is probed on the implementation against a character-wise matcher. "
@@ -23,7 +32,8 @@ META = {
     "design_ref": "DESIGN.md §6 C17",
 }
 
-HDR = "From Dawn Require Import Glob.Model Glob.Run.\nOpen Scope N_scope.\n"
+HDR = "From Dawn Require Import Glob.Model Glob.Run Glob.Walk Glob.WalkRun.\nOpen Scope N_scope.\n"
+WALK_BASE = 10000000
 PALPHA = b"a/.\n["
 
 
@@ -45,6 +55,40 @@ def to_case(f):
 def show(f):
     return {"kind": f[1], "patterns": [g.decode("latin-1") for g in globs_of(f[2])], "compile": f[3],
             "regexp": unhx(f[4]).decode("latin-1") if len(f) > 4 else None}
+
+
+def wlist(s):
+    """list field of the walk harness: nil = empty list, '-' = empty string"""
+    return [] if s == "nil" else [unhx(x) for x in s.split(",")]
+
+
+def cq_strs(l):
+    return cq_list([cq_bytes(x) for x in l], "str")
+
+
+def cq_tree(dirs, files):
+    """Dir files subs term from the relative paths of the directories and regular files of a tree"""
+    def build(prefix):
+        here = [f[len(prefix):] for f in files if f.startswith(prefix) and b"/" not in f[len(prefix):]]
+        subs = [d[len(prefix):] for d in dirs if d.startswith(prefix) and b"/" not in d[len(prefix):] and d != prefix[:-1]]
+        return "(Dir %s %s)" % (cq_strs(here), cq_list(["(%s, %s)" % (cq_bytes(n), build(prefix + n + b"/")) for n in subs],
+                                                       "(str * tree)"))
+    return build(b"")
+
+
+def to_wcase(f):
+    if f[0] == "wload":
+        return "WLoad %s %s" % (cq_strs(wlist(f[2])), cq_opt(cq_strs(wlist(f[4])) if f[3] == "ok" else None, "(list str)"))
+    return "%s %s %s %s %s" % ("WGlob" if f[2] == "glob" else "WOsGlob", cq_strs(wlist(f[3])), cq_strs(wlist(f[4])),
+                               cq_strs(wlist(f[5])), cq_opt(cq_strs(wlist(f[7])) if f[6] == "ok" else None, "(list str)"))
+
+
+def show_w(f):
+    d = lambda l: [x.decode("latin-1") for x in l]
+    if f[0] == "wload":
+        return {"kind": "Project.load with ignore list", "ignore": d(wlist(f[2])), "outcome": f[3], "loaded_packages": d(wlist(f[4]))}
+    return {"kind": f[2], "module_dir": "/".join(d(wlist(f[3]))), "include": d(wlist(f[4])), "exclude": d(wlist(f[5])),
+            "result": d(wlist(f[7]))}
 
 
 def enum_paths(alpha, n):
@@ -70,10 +114,13 @@ def run(ctx):
                       {"theorem_or_correspondence": "C17 correspondence harness (util)", "output": o[-3000:]}, found_input=False)
         return
     out2 = os.path.join(ctx.tmp, "c17_tree.tsv")
-    rc, o = ctx.go_overlay_test("", {"zz_verif_c17_glob_test.go": os.path.join(HARNESS, "overlay/root/zz_verif_c17_glob_test.go")},
-                                "^TestVerifC17Glob$", {"VERIF_OUT": out2, "VERIF_SEED": str(ctx.seed),
-                                                       "VERIF_NTREES": "6" if ctx.quick() else "40"})
-    if rc != 0:
+    out3 = os.path.join(ctx.tmp, "c17_walk.tsv")
+    wenv = {"VERIF_WALK_MAXLEN": "3" if ctx.quick() else "4", "VERIF_WALK_NSAMPLED": "60" if ctx.quick() else "600"}
+    rc, o = ctx.go_overlay_test("", {"zz_verif_c17_glob_test.go": os.path.join(HARNESS, "overlay/root/zz_verif_c17_glob_test.go"),
+                                     "zz_verif_c17_walk_test.go": os.path.join(HARNESS, "overlay/root/zz_verif_c17_walk_test.go")},
+                                "^TestVerifC17(Glob|Walk)$", dict(wenv, VERIF_OUT=out2, VERIF_OUT_WALK=out3, VERIF_SEED=str(ctx.seed),
+                                                                  VERIF_NTREES="6" if ctx.quick() else "40"))
+    if rc != 0 or not os.path.exists(out3):
         ctx.log(o[-3000:])
         ctx.violation("dawn glob()/ignore harness failed to build or run against /repo (exit %d)" % rc,
                       {"theorem_or_correspondence": "C17 harness (package dawn)", "output": o[-3000:]}, found_input=False)
@@ -97,29 +144,55 @@ def run(ctx):
             dist[key] = dist.get(key, 0) + 1
             cases.append(f)
     tree_lines = 0
+    tree_oracles = []     # reported after the sweeps' failures, which name one path of a small fixed tree
     for line in open(out2):
         f = line.rstrip("\n").split("\t")
         if f[0] == "ORACLE":
-            oracles.append(f)
+            tree_oracles.append(f)
         elif f[0] == "tree":
             tree_lines += 1
             dist["glob()/ignore runs"] = dist.get("glob()/ignore runs", 0) + 1
+    wtrees, wcases = {}, []
+    for line in open(out3):
+        f = line.rstrip("\n").split("\t")
+        if f[0] == "ORACLE":
+            oracles.append(f)
+        elif f[0] == "wtree":
+            wtrees[f[1]] = (wlist(f[2]), wlist(f[3]))
+        elif f[0] == "wload":
+            k = "ignore sweep: " + ("load fails (invalid escape)" if f[3] == "err" else
+                                    "shallowest matched directory at depth " + f[5])
+            dist[k] = dist.get(k, 0) + 1
+            wcases.append(f)
+        elif f[0] == "wglob":
+            res = wlist(f[7])
+            k = "%s sweep: %s" % (f[2], "no result" if not res else "deepest result at depth %d" % max(x.count(b"/") for x in res))
+            dist[k] = dist.get(k, 0) + 1
+            wcases.append(f)
+    oracles += tree_oracles
     paths = enum_paths(PALPHA, 4)
     assert npaths == len(paths)
     nok = len([f for f in cases if f[3] == "ok"])
-    ctx.coverage["evaluations"] = nok * npaths + len(cases) - nok
+    ctx.coverage["evaluations"] = nok * npaths + len(cases) - nok + len(wcases)
     ctx.coverage["distinct_nontrivial"] = len({(f[2], f[6]) for f in cases if f[3] == "ok" and f[6] != "0"})
     ctx.coverage["rule"] = ("every single pattern of length <= %s over {a / * ? \\ . [}, every pair of patterns of length <= 2, "
                             "%s sampled lists of 3-5 well-formed patterns, the remaining regexp metacharacters one by one, "
                             "each x all %d paths of length <= 4 over {a / . \\n [} (one evaluation = one MatchString; a "
                             "failed compilation counts once); non-trivial = compiled pattern lists matching at least one "
-                            "path, distinct by (patterns, match set); plus %d glob()/ignore runs on generated trees and %d "
-                            "non-ASCII probes" % (env["VERIF_MAXSINGLE"], env["VERIF_NTRIPLES"], npaths, tree_lines, len(probes)))
+                            "path, distinct by (patterns, match set); plus %d glob()/ignore runs on generated trees, %d "
+                            "non-ASCII probes, and the walk sweeps: one project tree with packages at depth 0-3 loaded under %d "
+                            "ignore lists (every single pattern of length <= %s over {a b / * ?}, all pairs of length <= 1, the "
+                            "generalisations of every directory path, an escape class, sampled lists) and %d glob()/os.glob() "
+                            "calls from two modules of one file tree (every single pattern of length <= %s over {a x / * ?}, the "
+                            "generalisations of every file path as include and as exclude, sampled include/exclude lists)"
+                            % (env["VERIF_MAXSINGLE"], env["VERIF_NTRIPLES"], npaths, tree_lines, len(probes),
+                               len([f for f in wcases if f[0] == "wload"]), wenv["VERIF_WALK_MAXLEN"],
+                               len([f for f in wcases if f[0] == "wglob"]), wenv["VERIF_WALK_MAXLEN"]))
     ctx.coverage["exhaustive"] = True
     ctx.coverage["correspondence"]["distribution"] = dist
     ctx.coverage["correspondence"]["non_ascii_probes"] = [
         {"patterns": [g.decode("utf-8", "replace") for g in globs_of(f[1])], "path_hex": f[2], "go": f[3], "spec": f[4]} for f in probes]
-    ctx.add_samples([show(f) for f in cases[700:703] + cases[-2:]])
+    ctx.add_samples([show(f) for f in cases[700:703] + cases[-2:]] + [show_w(f) for f in wcases[5:6] + wcases[-1:]])
 
     groups = {}
     for f in oracles:
@@ -134,7 +207,10 @@ def run(ctx):
                       {"oracle": name, "patterns": gs, "patterns_hex": f[2], "path": unhx(f[3]).decode("latin-1"), "path_hex": f[3],
                        "extra": f[4:], "more_failing_inputs_hex": [g[2:4] for g in fs[1:8]],
                        "how": "util.CompileGlobs(patterns).MatchString(path) vs the recursive matcher; "
-                              "harness/overlay/util/zz_verif_c17_test.go, harness/overlay/root/zz_verif_c17_glob_test.go"},
+                              "Project.load / glob() / os.glob() on the generated tree vs the same matcher applied to every "
+                              "directory on the way to a package resp. every entry below the module; "
+                              "harness/overlay/util/zz_verif_c17_test.go, harness/overlay/root/zz_verif_c17_glob_test.go, "
+                              "harness/overlay/root/zz_verif_c17_walk_test.go"},
                       key="empty-set-empty-path" if name == "empty-set-matches-empty-path" else None)
     for f in panics:
         ctx.violation("CompileGlobs panics", {"case": show(f)})
@@ -145,22 +221,41 @@ def run(ctx):
     for i in range(0, len(cases), shard):
         items = ["(%s, %s)" % (cq_N(i + j), to_case(f)) for j, f in enumerate(cases[i:i + shard])]
         exprs.append("mismatches %s [\n%s]" % (pexpr, ";\n".join(items)))
+    nshards = len(exprs)
+    for tid in sorted(wtrees):
+        tterm = cq_tree(*wtrees[tid])
+        sel = [(k, f) for k, f in enumerate(wcases) if f[1] == tid]
+        for i in range(0, len(sel), 400):
+            items = ["(%s, %s)" % (cq_N(WALK_BASE + k), to_wcase(f)) for k, f in sel[i:i + 400]]
+            exprs.append("walk_mismatches %s [\n%s]" % (tterm, ";\n".join(items)))
     okc, res, logs = ctx.coq_eval(HDR, exprs)
     if not okc:
         ctx.log("coq evaluation failed", logs[:1])
         ctx.violation("model evaluation failed", {"theorem_or_correspondence": "C17 cases.v evaluation", "log": logs[:2]},
                       found_input=False)
         return
-    mism = [i for r in res for i in r]
-    ctx.coverage["correspondence"]["cases"] = len(cases)
-    ctx.coverage["correspondence"]["mismatches"] = len(mism)
-    ctx.log("pattern lists=%d match evaluations=%d mismatches=%d oracle_failures=%d" % (len(cases), nok * npaths, len(mism), len(oracles)))
+    allm = [i for r in res for i in r]
+    mism = [i for i in allm if i < WALK_BASE]
+    wmism = [i - WALK_BASE for i in allm if i >= WALK_BASE]
+    ctx.coverage["correspondence"]["cases"] = len(cases) + len(wcases)
+    ctx.coverage["correspondence"]["walk_cases"] = len(wcases)
+    ctx.coverage["correspondence"]["mismatches"] = len(mism) + len(wmism)
+    ctx.log("pattern lists=%d match evaluations=%d walk cases=%d mismatches=%d+%d oracle_failures=%d"
+            % (len(cases), nok * npaths, len(wcases), len(mism), len(wmism), len(oracles)))
     real_oracles = [f for f in oracles if f[1] != "empty-set-matches-empty-path"]
     if mism and not real_oracles and not panics:
         ex = [show(cases[i]) for i in mism[:5]]
         ctx.violation("model/implementation disagree on %d pattern lists, e.g. %s" % (len(mism), ex[0]),
                       {"theorem_or_correspondence": "correspondence Glob/Model.v <-> util/glob.go (pattern string, parse shape, match set)",
                        "disagreeing_cases": ex, "hex": [cases[i] for i in mism[:5]]}, found_input=False)
+    if wmism and not real_oracles and not panics:
+        ex = [show_w(wcases[i]) for i in wmism[:5]]
+        ctx.violation("model/implementation disagree on %d directory-walk cases, e.g. %s" % (len(wmism), ex[0]),
+                      {"theorem_or_correspondence": "correspondence Glob/Walk.v <-> project.go loadPackage / project_builtins.go glob / "
+                                                    "lib/os/glob.go (set of loaded packages, set of selected paths)",
+                       "trees": {k: {"dirs": [x.decode("latin-1") for x in v[0]], "files": [x.decode("latin-1") for x in v[1]]}
+                                 for k, v in wtrees.items()},
+                       "disagreeing_cases": ex, "raw": [wcases[i] for i in wmism[:5]]}, found_input=False)
     if proof_broken and not ctx.violations:
         ctx.violation("a C17 theorem no longer checks", {"theorem_or_correspondence": getattr(ctx, "broken_proof", {})},
                       found_input=False)
